@@ -35,7 +35,7 @@ func init() { core.Register(prop{}) }
 func (prop) ID() string    { return "C01" }
 func (prop) Level() string { return "exploration" }
 func (prop) Rule() string {
-	return "scenario = (service, input bytes from grammar dialogue / truncation / mutation / raw class / protocol-client special, segmentation, K concurrent connections), generated from (seed,index); fixed boundary cases first. Non-trivial = the real service reacted (>=1 reply byte, reply datagram or captured event); distinct by (service, sha256(input), segmentation, K). Also: request storms (one message of the dialogue repeated 150-600 times), fixed boundary cases per service (decimal length fields, ftp data-connection commands with ill-formed or missing arguments, vnc update-request storms with supported and unsupported pixel formats, ssh channel storms by an authenticated client), and a health monitor of the service under test: the well-formed dialogue with the longest deterministic reply is repeated on a fresh connection from a fresh address after every 8th scenario and must not get a shorter reply than before the workload. Shell input of the authenticated ssh scenarios is drawn from commands, blank and whitespace-only lines, a 5000-byte line, control characters and a last line without newline; the ssh channel storm opens 150 further session channels. Fixed cases also cover: ipp attributes announcing a small negative length, snmp get-requests with one element declaring a length far beyond the datagram at every nesting depth with none/one/all enclosing structures flagged primitive, telnet and authenticated ssh shells sent key sequences that never end, an ssh shell sent 40 window-change requests. With every client gone, two windows of four memory samples one second apart must not both grow by more than 24 MiB. The child writes every scenario to disk before sending it (the witness of a death) and a heap profile when its memory guard trips."
+	return "scenario = (service, input bytes from grammar dialogue / truncation / mutation / raw class / protocol-client special, segmentation, K concurrent connections), generated from (seed,index); fixed boundary cases first. Non-trivial = the real service reacted (>=1 reply byte, reply datagram or captured event); distinct by (service, sha256(input), segmentation, K). Also: request storms (one message of the dialogue repeated 150-600 times), fixed boundary cases per service (decimal length fields, ftp data-connection commands with ill-formed or missing arguments, vnc update-request storms with supported and unsupported pixel formats, ssh channel storms by an authenticated client), and a health monitor of the service under test: the well-formed dialogue with the longest deterministic reply is repeated on a fresh connection from a fresh address after every 8th scenario and must not get a shorter reply than before the workload. Shell input of the authenticated ssh scenarios is drawn from commands, blank and whitespace-only lines, a 5000-byte line, control characters and a last line without newline; the ssh channel storm opens 150 further session channels. Fixed cases also cover: ipp attributes announcing a small negative length, snmp get-requests with one element declaring a length far beyond the datagram at every nesting depth with none/one/all enclosing structures flagged primitive, telnet and authenticated ssh shells sent key sequences that never end, an ssh shell sent 40 window-change requests. With every client gone, two windows of four memory samples one second apart must not both grow by more than 24 MiB. The child writes every scenario to disk before sending it (the witness of a death) and a heap profile when its memory guard trips. After an ftp scenario whose replies announced passive ports a peer connects to each of them once the control connection is gone."
 }
 func (prop) Assumptions() []string {
 	return []string{
